@@ -288,6 +288,11 @@ def pinned_cases():
     yield 'contact-header-and-sess-init-in-one-read', {'kind': 'stream', 'active': True, 'sess_init': None,
                                                        'queue_own': False, 'ch_joined': True,
                                                        'msgs': [{'t': 'KEEPALIVE'}], 'cuts': []}
+    many = [{'flags': 0, 'type': 0x1234, 'value': ''}] * 101
+    yield 'sess-init-with-101-extension-items', {'kind': 'stream', 'active': False, 'queue_own': False, 'cuts': [40],
+                                                 'sess_init': dict(_default_init(), ext=many), 'msgs': [{'t': 'KEEPALIVE'}]}
+    yield 'segment-with-101-extension-items', {'kind': 'stream', 'active': True, 'queue_own': False, 'cuts': [],
+                                               'sess_init': None, 'msgs': [{'t': 'XFER_SEGMENT', 'flags': 3, 'id': 5, 'dlen': 4, 'dseed': 1, 'ext': many}, {'t': 'KEEPALIVE'}]}
     yield 'contact-split', {'kind': 'stream', 'active': False, 'sess_init': None, 'queue_own': False,
                             'msgs': [{'t': 'KEEPALIVE'}, {'t': 'KEEPALIVE'}], 'cuts': [3, 6, 20]}
 
